@@ -86,6 +86,8 @@ MAX_PRE = 40
 # generator
 
 _DOTS = ['..', '..', '.', '']
+# components that only *look* like dot components after whitespace trimming / normalisation (legal odd names)
+_NEARDOTS = ['.. ', ' ..', '. ', ' .', ' ', '  ', '\t', '..\u00a0', '\u00a0..', '...', '.. .', '..\t']
 _ALIAS = ['@@abcde', '@@x', '@@']
 _DRIVE = ['C:', 'd:', 'C:x']
 _DIRS = ['Music', 'album', 'My Album (2)', 'a', 'dir.d', 'tmp', 'etc']
@@ -98,7 +100,7 @@ _RANDOM = st.text(alphabet=st.characters(exclude_categories=['Cs', 'Cc'], exclud
                   min_size=1, max_size=10)
 
 _component = st.one_of(
-    st.sampled_from(_DOTS), st.sampled_from(_DOTS),
+    st.sampled_from(_DOTS), st.sampled_from(_DOTS), st.sampled_from(_NEARDOTS),
     st.sampled_from(_ALIAS), st.sampled_from(_DRIVE),
     st.sampled_from(_DIRS), st.sampled_from(_DIRS),
     st.sampled_from(_FILES), st.sampled_from(_FILES),
@@ -106,7 +108,7 @@ _component = st.one_of(
 )
 _file_component = st.one_of(
     st.sampled_from(_FILES), st.sampled_from(_FILES), st.sampled_from(_NUMBERED), st.sampled_from(_NONASCII),
-    st.sampled_from(_DOTS), st.sampled_from(_LONG), st.sampled_from(_DIRS), _RANDOM,
+    st.sampled_from(_DOTS), st.sampled_from(_NEARDOTS), st.sampled_from(_LONG), st.sampled_from(_DIRS), _RANDOM,
 )
 _sep = st.sampled_from(SEP_RUNS[:2] * 3 + SEP_RUNS)
 
@@ -196,6 +198,12 @@ def _enumerated_cases():
     for chain in CHAIN_CHOICES:
         for tail in ('', '\\', '//'):
             yield {'t': 'pure', 'parts': [], 'tail': tail, 'chain': chain, 'pre': [], 'mk': True}
+    # near-dot components (whitespace padded): 2-component paths dir\<near-dot>\file and a near-dot as last component
+    for nd in _NEARDOTS:
+        for chain in CHAIN_CHOICES:
+            yield {'t': 'pure', 'parts': [['', '@@a'], ['\\', nd], ['\\', 'f.txt']], 'tail': '', 'chain': chain,
+                   'pre': [], 'mk': True}
+            yield {'t': 'pure', 'parts': [['', 'dir'], ['\\', nd]], 'tail': '', 'chain': chain, 'pre': [], 'mk': True}
 
 
 # ---------------------------------------------------------------------------
